@@ -83,10 +83,13 @@ Theorem C12_members_roundtrip_refuted :
 Proof. exists numeric_string_schema; split; vm_compute; reflexivity. Qed.
 Print Assumptions C12_members_roundtrip_refuted.
 
-(* descriptions of one line without double quotes *)
+(* descriptions of one line without double quotes that do not end with a
+   backslash (those are laid out as a block since /repo 6320d32, fixes/C12-07:
+   next theorem) *)
 Theorem C12_description_roundtrip_partial : forall o desc depth,
   forallb plain_char desc = true -> blank desc = false -> length desc < 70 ->
   length desc <= 120 - length (ind o depth) ->
+  last desc 0%N <> 92%N ->
   description_body o desc depth = desc
   /\ block_string_value (unescape_triple (description_body o desc depth)) = desc.
 Proof. exact description_roundtrip_single_line. Qed.
@@ -104,7 +107,7 @@ Theorem C12_description_roundtrip_block : forall o desc depth,
   forallb clean_line lines = true ->
   forallb (fun l => Nat.leb (length l) (120 - length indent)) lines = true ->
   hd [] lines <> [] -> last lines [] <> [] ->
-  (2 <= length lines \/ 70 <= length (hd [] lines)) ->
+  (2 <= length lines \/ 70 <= length (hd [] lines) \/ ends_with_qb (hd [] lines) = true) ->
   block_string_value (unescape_triple (description_body o desc depth)) = desc.
 Proof. exact description_roundtrip_block. Qed.
 Print Assumptions C12_description_roundtrip_block.
@@ -244,7 +247,7 @@ Theorem C12_description_class_block : forall o desc,
   forallb clean_line (split_nl desc) = true ->
   forallb (fun l => Nat.leb (length l) 120) (split_nl desc) = true ->
   hd [] (split_nl desc) <> [] -> last (split_nl desc) [] <> [] ->
-  (2 <= length (split_nl desc) \/ 70 <= length (hd [] (split_nl desc))) ->
+  (2 <= length (split_nl desc) \/ 70 <= length (hd [] (split_nl desc)) \/ ends_with_qb (hd [] (split_nl desc)) = true) ->
   Forall SourceCharacter desc ->
   desc_ok o (Some desc).
 Proof. exact desc_ok_block. Qed.
